@@ -79,8 +79,7 @@ def run_case(case, res):
         except Exception as e:
             return ("EXC", type(e).__name__, str(e)[:80])
 
-    try:
-        with case_deadline(30):
+    def evaluate():
             for x in nodes:
                 sibs = list(x._parent.children) if x.parent is None else list(x.parent.children)
                 if x.parent is None:
@@ -153,6 +152,18 @@ def run_case(case, res):
             chk("tree.first_child(ANY)", attempt(lambda: t.first_child(ANY_KIND)), top[0] if top else None, None)
             chk("tree.last_child(ANY)", attempt(lambda: t.last_child(ANY_KIND)), top[-1] if top else None, None)
             chk("tree.iter_by_type(ANY)", attempt(lambda: list(t.iter_by_type(ANY_KIND))), allnodes, None)
+    try:
+        with case_deadline(60):
+            evaluate()
+            if case.get("resort") and not bad:
+                # the same queries after the child lists were re-ordered in place (answers computed earlier must
+                # not be served again) and after a node was added and removed
+                t.sort(key=lambda nd: str(nd.data_id), reverse=True)
+                if nodes:
+                    tmp = nodes[0].add("tmp-x", kind="ka")
+                    tmp.remove()
+                evaluate()
+                res.count("re_evaluations_after_sort")
     except CaseTimeout:
         res.inconc("case watchdog fired")
         return
@@ -193,6 +204,8 @@ def run_shard(spec, res):
                     run_case({"f": fc, "kinds": a[:n], "lab": "uniq"}, res)
                     if n >= 1 and ai % 3 == 0:
                         run_case({"f": fc, "kinds": a[:n], "lab": "uniq", "prelude": True, "pseed": ai}, res)
+                    if n >= 2 and ai % 3 == 1:
+                        run_case({"f": fc, "kinds": a[:n], "lab": "uniq", "resort": True}, res)
                 for a in assigns[:: max(1, len(assigns) // 6)]:
                     run_case({"f": fc, "kinds": a[:n], "lab": "eqsib"}, res)
                 if res.expired():
@@ -205,6 +218,6 @@ def run_shard(spec, res):
             f = gen.random_forest(rng, rng.randint(7, 25))
             n = gen.size(f)
             run_case({"f": gen.code(f), "kinds": "".join(rng.choice(KINDS) for _ in range(n)), "lab": rng.choice(["uniq", "eqsib"]),
-                      "prelude": rng.random() < 0.5, "pseed": rng.randrange(10**6)}, res)
+                      "prelude": rng.random() < 0.5, "pseed": rng.randrange(10**6), "resort": rng.random() < 0.5}, res)
             if res.expired():
                 break
